@@ -38,7 +38,7 @@ class Gen:
                  total_sort_p=0.5, pref_engines=None, leaf_payloads=("simrows", "seq", "map"),
                  bounds=("exact",), special_leaf_p=0.0, named_mat=True, max_rows=5, itonly_p=0.0,
                  allow_pending_binary=0.05, hidden_p=0.0, zero_col_p=0.08, adjacent_p=0.0, ill_flags_p=0.5,
-                 nonkey_join_p=0.0, pipeline_p=0.0, redeclare_p=0.0):
+                 nonkey_join_p=0.0, pipeline_p=0.0, redeclare_p=0.0, stride_order_only=False):
         self.rng = rng
         self.engines = engines
         self.weights = weights
@@ -60,6 +60,7 @@ class Gen:
         self.adjacent_p = adjacent_p
         self.nonkey_join_p = nonkey_join_p
         self.redeclare_p = redeclare_p
+        self.stride_order_only = stride_order_only
         self.pipeline = rng.random() < pipeline_p      # one deep pipeline: unary operations keep extending the last entry
         self.ill_flags_p = ill_flags_p
         self.force_last = False
@@ -279,6 +280,11 @@ class Gen:
             self.ops.append({**prev, "t": len(self.pool) - 1})
             self.pool.append(self.pool[-1].copy())
             return
+        if self.adjacent_p and self.last_kind == "custom" and self.ops[-1]["k"] == "custom" and r.random() < self.adjacent_p:
+            prev = self.ops[-1]          # the same user-defined operation (equal parameters) again, back to back
+            self.ops.append({**{k: v for k, v in prev.items() if k not in ("pe", "bt", "tr", "rq")}, "t": len(self.pool) - 1})
+            self.pool.append(self.pool[-1].copy())
+            return
         if self.adjacent_p and self.last_kind in ("calc", "proj", "sel", "dedup", "sort", "slice") and r.random() < self.adjacent_p:
             k = self.last_kind if r.random() < 0.7 else r.choice(["proj", "slice", "sort", "sel"])
             self.force_last = True
@@ -466,6 +472,107 @@ class Gen:
         if self.ops[-1]["k"] == "process":
             self.pool.append(self.pool[-1].copy())
 
+    def g_reuse_mat(self):
+        """Materialize something, evaluate it (the node caches its rows), build one to three further operations on top of
+        the cached node (chains with it as either branch, eager operations), evaluate those, then read the cached node
+        again: nothing downstream may disturb the cache."""
+        r = self.rng
+        if self.pick(lambda s: not s.pending) is None:
+            return
+        self.force_last = True
+        try:
+            if r.random() < 0.6:
+                getattr(self, "g_" + r.choice(["dedup", "sel", "proj", "slice", "calc"]))()
+            t = self.pick(lambda s: not s.pending)
+            self.nmat += 1
+            self.ops.append({"k": "mat", "t": t, "name": f"m{self.nmat}"})
+            self.pool.append(self.pool[t].copy(mat=True))
+            m = len(self.pool) - 1
+            self.ops.append({"k": "run", "t": m})
+            for _ in range(r.randint(1, 3)):
+                k = r.choice(["chain", "chain", "dedup", "sort", "slice", "sel", "calc", "proj"])
+                cur = len(self.pool) - 1
+                sh = self.pool[cur]
+                if k == "chain":
+                    other = cur
+                    if all(c in KEY_TAGS or (c == "u" and "a" in sh.cols) or (c == "v" and "b" in sh.cols) for c in sh.cols):
+                        self.leaf(eng=sh.eng, cols=sorted(sh.cols))
+                        if self.pool[-1].cols == sh.cols:
+                            other = len(self.pool) - 1
+                    l, rr = (cur, other) if r.random() < 0.7 else (other, cur)
+                    self.ops.append({"k": "chain", "l": l, "r": rr})
+                    self.pool.append(sh.copy(pending=False, compound=True))
+                else:
+                    getattr(self, "g_" + k)()
+            self.ops.append({"k": "run", "t": len(self.pool) - 1})
+            self.ops.append({"k": "run", "t": m})
+        finally:
+            self.force_last = False
+
+    def g_flag_on_processed(self):
+        """process() a multi-engine tree, apply an operation with a preferred engine to the tree it returned (so that
+        backtracking meets payload-carrying transfers / materializations), and evaluate the result."""
+        r = self.rng
+        i = self.pick(lambda s: s.multi and not s.pending)
+        if i is None:
+            return
+        self.ops.append({"k": "process", "t": i})
+        self.pool.append(self.pool[i].copy())
+        sh = self.pool[-1]
+        saved = self.flags_p
+        self.flags_p = 1.0
+        self.force_last = True
+        try:
+            getattr(self, "g_" + r.choice(["sel", "sort", "proj", "calc", "dedup", "slice"]))()
+        finally:
+            self.flags_p = saved
+            self.force_last = False
+        self.ops.append({"k": r.choice(["run", "process"]), "t": len(self.pool) - 1})
+        if self.ops[-1]["k"] == "process":
+            self.pool.append(self.pool[-1].copy())
+
+    def g_marker_tower(self):
+        """Two to five marker-ish steps stacked on one relation - materialize, user marker, transfer (there, on, back),
+        chain with a statically empty branch - then process()/run: Processor's handling of marker stacks (where the
+        payload goes, what a materialization collapses into, which transfer gets materialize_as)."""
+        r = self.rng
+        i = self.pick(lambda s: not s.pending)
+        if i is None:
+            return
+        cur = i
+        for _ in range(r.randint(2, 5)):
+            sh = self.pool[cur]
+            k = r.choice(["mat", "mat", "mark", "xfer", "xfer", "chain_empty"])
+            if k == "mat":
+                self.nmat += 1
+                self.ops.append({"k": "mat", "t": cur, "name": f"m{self.nmat}" if r.random() < 0.8 else None})
+                self.pool.append(sh.copy(mat=True))
+            elif k == "mark":
+                self.ops.append({"k": "mark", "t": cur})
+                self.pool.append(sh.copy())
+            elif k == "xfer":
+                others = [e for e in self.engines if e != sh.eng]
+                if not others:
+                    continue
+                to = r.choice(others)
+                self.ops.append({"k": "xfer", "t": cur, "to": to})
+                self.pool.append(sh.copy(eng=to, pending=False, multi=True))
+            else:
+                cols = sorted(sh.cols)
+                self.ops.append({"k": "leaf", "eng": sh.eng, "cols": cols, "rows": [], "special": "doomed"})
+                self.pool.append(Shadow(cols, sh.eng, nrows=0))
+                j = len(self.pool) - 1
+                l, rr = (j, cur) if r.random() < 0.5 else (cur, j)
+                self.ops.append({"k": "chain", "l": l, "r": rr})
+                self.pool.append(sh.copy(pending=False))
+            cur = len(self.pool) - 1
+        self.ops.append({"k": r.choice(["process", "process", "run"]), "t": cur})
+        if self.ops[-1]["k"] == "process":
+            self.pool.append(self.pool[cur].copy())
+            if r.random() < 0.4:
+                self.ops.append({"k": "process", "t": len(self.pool) - 1})
+                self.pool.append(self.pool[-1].copy())
+
     def g_roundtrip_mat(self):
         """A -> B, materialized in B, evaluated (so the node caches its rows), transferred on - possibly through a
         third engine - back to A, evaluated again: the cached node must stay in the tree and be used."""
@@ -555,6 +662,60 @@ class Gen:
             return
         self.ops.append({"k": "mark", "t": i})
         self.pool.append(self.pool[i].copy())
+
+    def g_custom(self):
+        """User-defined unary operation in an iteration engine (see world.SimAtLeast / SimStride / SimOrderBy)."""
+        r = self.rng
+        i = self.pick(lambda s: s.eng != "sql")
+        if i is None:
+            return
+        sh = self.pool[i]
+        k = r.choice(["atleast", "atleast", "stride", "stride", "orderby"])
+        if k == "orderby" and not sh.cols:
+            k = "stride"
+        op = {"k": "custom", "t": i, "op": k}
+        if k == "atleast":
+            op["n"] = r.choice([0, 1, 2, 2, 3, 4])
+        elif k == "stride":
+            op["n"] = r.choice([1, 2, 2, 3])
+            op["cd"] = not (self.stride_order_only and r.random() < 0.6)
+        else:
+            op["col"] = r.choice(sorted(sh.cols))
+            op["desc"] = r.random() < 0.4
+        fl = self.flags(sh)
+        if fl.get("pe") == "sql":
+            fl = {}
+        op.update(fl)
+        self.ops.append(op)
+        self.pool.append(sh.copy(eng=self._after_flags(sh, fl)))
+
+    def g_twin(self):
+        """Rebuild a relation as an equal-but-distinct twin, then issue one and the same call on both."""
+        r = self.rng
+        i = self.pick(lambda s: not s.pending or r.random() < 0.3)
+        if i is None:
+            return
+        sh = self.pool[i]
+        self.ops.append({"k": "twin", "t": i})
+        self.pool.append(sh.copy())
+        j = len(self.pool) - 1
+        self.force_last = True
+        n = len(self.ops)
+        try:
+            getattr(self, "g_" + r.choice(["sel", "proj", "calc", "sort", "slice", "dedup"]))()
+        finally:
+            self.force_last = False
+        if len(self.ops) == n or self.ops[-1].get("t") != j:
+            return
+        first = dict(self.ops[-1])
+        first["t"] = i
+        # original first, then the twin (the freshly generated op already targets the twin)
+        last = self.ops.pop()
+        shp = self.pool.pop()
+        self.ops.append(first)
+        self.pool.append(shp.copy())
+        self.ops.append(last)
+        self.pool.append(shp)
 
     def g_xfer(self):
         i = self.pick()
